@@ -292,6 +292,7 @@ class C07(Profile):
         cfg["max_params"] = 0
         cfg["p_param"] = 0
         cfg["big_n"] = True
+        cfg["prob_threshold"] = rng.choice([None, None, 1e-6, 1e-3, 0.02, 0.04])
         cfg["convert"] = False
         w = cfg["weights"]
         w["sampler_user"] = max(w["sampler_user"], 2.5)
